@@ -567,7 +567,12 @@ impl Scenario for ArithProg {
                 }
                 A_SC_MULADD => continue, // scalar::muladd is crate-private; exercised through ed25519::signature in sigchannel
                 A_GE_BASE => {
-                    let a = special_scalar(op.arg, op.seed);
+                    let mut a = special_scalar(op.arg, op.seed);
+                    // scalarmult_base documents its operand range as a[31] <= 0x80, i.e. up to 2^255 + 2^248 - 1:
+                    // the top of that range for a share of the calls (selector bit 6 of the seed)
+                    if op.seed & 0x40 != 0 && op.arg % 4 == 3 {
+                        a[31] = 0x80;
+                    }
                     guarded(|| Ge::scalarmult_base(&Scalar::from_bytes(&a)).to_bytes()).map(|b| obs.out(&b))
                 }
                 A_GE_DOUBLE_SCALARMULT => {
